@@ -97,6 +97,19 @@ func runMulti(r *common.Run, carrier string, ops []mop, class string) {
 	}
 	defer p.stop()
 	ln := p.h.Listen(p.rs.S)
+	// one acceptor for the whole case (an open that is refused must not leave an Accept call behind
+	// that takes the next stream); it ends when the listener is closed
+	accCh := make(chan net.Conn, 64)
+	go func() {
+		for {
+			c, err := ln.Accept()
+			if err != nil {
+				return
+			}
+			accCh <- c
+		}
+	}()
+	defer ln.Close()
 	var conns []*mconn
 	cur := map[int]int{}   // sid -> connection that owns it now
 	used := map[int]bool{} // sids that had a stream before
@@ -117,13 +130,50 @@ func runMulti(r *common.Run, carrier string, ops []mop, class string) {
 		switch o.kind {
 		case 'o', 'O':
 			if _, open := cur[o.sid]; open {
-				continue // a second stream with a sid that is in use: not generated
+				if o.kind == 'O' {
+					continue // OpenIQ with a session id of our own that is still in use: not generated
+				}
+				// an <open/> for a session id that is IN USE (from the peer, or - o.n = 1 - from a third
+				// party): it must be refused and must not disturb the stream that has the id
+				id := fmt.Sprintf("mo%d", nid)
+				from := peerJID
+				if o.n == 1 {
+					from = "mallory@example.org/m"
+				}
+				p.feed(fmt.Sprintf(`<iq xmlns="jabber:client" type="set" id="%s" from="%s" to="me@example.net/h"><open xmlns="http://jabber.org/protocol/ibb" sid="M%d" block-size="4" stanza="%s"/></iq>`, id, from, o.sid, carrier))
+				toks = append(toks, o.tok())
+				if !p.pump(func() bool { return p.replies[id] != "" }) {
+					problem("no answer to an open for a session id in use")
+					continue
+				}
+				if p.replies[id] == "ack" {
+					r.Fail("open-iff-accepted", "open-for-session-id-in-use-accepted", line(), fmt.Sprintf("a stream with session id %d is open; a second <open/> for the same id (from %s) was answered with a result: the table entry of the stream in use is replaced, its later packets reach the wrong connection", o.sid, from))
+					var c2 *ibb.Conn
+					select {
+					case c := <-accCh:
+						c2, _ = c.(*ibb.Conn)
+					case <-time.After(watchdog):
+					}
+					if c2 == nil {
+						problem("accepted second open not handed over")
+						continue
+					}
+					obs = append(obs, "o")
+					cur[o.sid] = len(conns)
+					conns = append(conns, &mconn{c: c2, sid: o.sid})
+					continue
+				}
+				code, ok := replyCode[p.replies[id]]
+				if !ok {
+					code = "other:" + p.replies[id]
+				}
+				obs = append(obs, code)
+				continue
 			}
 			sid := fmt.Sprintf("M%d", o.sid)
 			var conn *ibb.Conn
 			if o.kind == 'o' {
-				acc := make(chan net.Conn, 1)
-				go func() { c, _ := ln.Accept(); acc <- c }()
+				acc := accCh
 				id := fmt.Sprintf("mo%d", nid)
 				p.feed(fmt.Sprintf(`<iq xmlns="jabber:client" type="set" id="%s" from="%s" to="me@example.net/h"><open xmlns="http://jabber.org/protocol/ibb" sid="%s" block-size="4" stanza="%s"/></iq>`, id, peerJID, sid, carrier))
 				select {
@@ -317,6 +367,11 @@ func multiCorpus() [][]mop {
 	rd := func(h, n int) mop { return mop{kind: 'r', h: h, n: n} }
 	cl := func(h int) mop { return mop{kind: 'C', h: h} }
 	var out [][]mop
+	// an <open/> for a session id that is in use (from the peer / from a third party; stream opened by
+	// either side): refused, the stream that has the id goes on undisturbed
+	for _, open := range []byte{'o', 'O'} {
+		out = append(out, []mop{o(open, 1), md(1, 0, []byte("ABC")), {kind: 'o', sid: 1}, md(1, 1, []byte("DEF")), {kind: 'o', sid: 1, n: 1}, md(1, 2, []byte("GHI")), rd(0, 64), o('c', 1), o('o', 1), md(1, 0, []byte("new")), rd(0, 8), rd(1, 8)})
+	}
 	// a session id is used again after the stream that had it was closed (by either side, opened by either side)
 	for _, open := range []byte{'o', 'O'} {
 		for _, closeLocal := range []bool{false, true} {
@@ -381,6 +436,8 @@ func randMulti(rnd *common.Rand) []mop {
 			ops = append(ops, mop{kind: 'd', sid: sid, seq: strconv.Itoa(seq), payload: "QUJD"})
 		case k == 9:
 			ops = append(ops, mop{kind: 'd', sid: sid, seq: "0", payload: []string{"REVG!!!!", "QUJ"}[rnd.Intn(2)]})
+		case k == 12 && s != nil && rnd.Chance(1, 2):
+			ops = append(ops, mop{kind: 'o', sid: sid, n: rnd.Intn(2)})
 		case k < 13 && s != nil:
 			if rnd.Bool() {
 				ops = append(ops, mop{kind: 'c', sid: sid})
